@@ -229,7 +229,25 @@ pub fn gen_plan(property: &str, seed: u64, index: u64, tier: Tier) -> Plan {
                 let mode = rng.below(10);
                 let depth = rng.range(1, 2) as i64;
                 knobs.insert("depth".into(), depth);
-                if mode == 9 || mode == 8 {
+                if mode == 7 && rng.chance(1, 2) {
+                    // "after any legal history": a hundred quiet plies and more, then the engine is asked
+                    scenario = "long-quiet-history";
+                    let (_, s) = choose_start(&mut rng, &[(StartKind::Endgame, 3), (StartKind::Initial, 1)]);
+                    start = s;
+                    let mut pos = start.clone();
+                    for n in 0..rng.range(98, 112) {
+                        let legal = pos.legal_moves();
+                        if legal.is_empty() {
+                            break;
+                        }
+                        let k = choose_move(&mut rng, &pos, &legal, Policy::Frozen, None);
+                        ops.push(Op::Make(k as u32));
+                        pos = pos.make(&legal[k]);
+                        if n >= 96 {
+                            ops.push(Op::EngineMove(1000));
+                        }
+                    }
+                } else if mode == 9 || mode == 8 {
                     // ask (without playing the answer) at every position of a tempo-losing walk: the same
                     // placement comes back with the other side to move inside one game
                     scenario = "ask-along-lookalike-walk";
